@@ -433,6 +433,89 @@ func checkC02(c *Ctx) {
 		}
 	})
 	c.Floor("injections_whose_devices_moved_to_the_new_directory", 10)
+	// the directory list of a live auto-refresh cache is replaced by a permutation of
+	// itself (no file changes, no events): the very next injection follows the new order
+	c.RunCases("reorder", c.pick(150, 3000), 4, func(cs *Case) {
+		r := cs.R
+		root := filepath.Join(c.Scratch, sanitize(cs.Name))
+		must(os.MkdirAll(root, 0o755))
+		defer os.RemoveAll(root)
+		var real []HostNode
+		for _, h := range hosts {
+			if h.Type == "b" || h.Type == "c" || h.Type == "p" {
+				real = append(real, h)
+			}
+		}
+		p := genPop(r, root, PopOpt{Rich: true, Hosts: real})
+		anchor := filepath.Join(root, "anchor")
+		p.Phys = append(p.Phys, anchor)
+		p.Exists = append(p.Exists, true)
+		p.Conf = append([]string{anchor}, p.Conf...)
+		p.ConfPhys = append([]int{len(p.Phys) - 1}, p.ConfPhys...)
+		p.Protect = len(p.Phys) - 1
+		p.Write()
+		before := p.Resolve()
+		a, err := newAutoCache(root, anchor, p.Conf)
+		if err != nil {
+			c.Inconclusive("no-inotify")
+			return
+		}
+		defer a.Close()
+		a.C.ListDevices()
+		how := p.Relist(r, p.Protect)
+		o, reuse := withDirs(p.Conf)
+		a.C.Configure(o)
+		reuse()
+		res := p.Resolve()
+		var moved, all []string
+		for q, w := range res.Devices {
+			all = append(all, q)
+			if b := before.Devices[q]; b == nil || b.Path != w.Path {
+				moved = append(moved, q)
+			}
+		}
+		sort.Strings(moved)
+		sort.Strings(all)
+		if len(all) == 0 {
+			return
+		}
+		req := moved
+		if len(req) > 3 {
+			req = req[:3]
+		}
+		if len(req) == 0 || chance(r, 30) {
+			req = append(req, all[r.Intn(len(all))])
+			if len(req) == 2 && req[0] == req[1] {
+				req = req[:1]
+			}
+		}
+		var combined specs.ContainerEdits
+		met := map[string]bool{}
+		for _, q := range req {
+			w := res.Devices[q]
+			if !met[w.Path] {
+				met[w.Path] = true
+				appendEdits(&combined, &cloneSpec(w.File.Spec).ContainerEdits)
+			}
+			dev := cloneSpec(&specs.Spec{Devices: []specs.Device{w.Dev}}).Devices[0]
+			appendEdits(&combined, &dev.ContainerEdits)
+		}
+		initial := genOCI(r)
+		want, got := cloneOCI(initial), cloneOCI(initial)
+		if err := (&cdi.ContainerEdits{ContainerEdits: &combined}).Apply(want); err != nil {
+			return
+		}
+		unres, ierr := a.C.InjectDevices(got, req...)
+		c.Count("injections_right_after_a_reordering", 1)
+		if len(moved) > 0 {
+			c.Count("injections_whose_devices_change_file_with_the_order", 1)
+		}
+		c.Distinct(fmt.Sprintf("reorder|%d|%v", len(req), len(moved) > 0))
+		if ierr != nil || len(unres) > 0 || exactJSON(got) != exactJSON(want) {
+			cs.Violation("composition", map[string]string{"mode": "directory list reordered"}, fmt.Sprintf("after %s, InjectDevices(%v) as the next query differs from the combined edit list under the new order (unresolved=%v err=%v)\n got  %s\n want %s", how, req, unres, ierr, clip(normJSON(got), 1500), clip(normJSON(want), 1500)), map[string]any{"population": p.Describe(), "request": req})
+		}
+	})
+	c.Floor("injections_whose_devices_change_file_with_the_order", 10)
 	c.Floor("requests_spanning_2+_files", 50)
 	c.Floor("requests_with_2+_devices_of_one_file", 50)
 	c.Floor("injections_into_already_used_cache", 50)
